@@ -390,8 +390,11 @@ def main(argv):
         'wall_s': round(time.time() - t0, 2),
         'violations': len(violation_lines),
     }
-    os.makedirs(os.path.join(VERIF, 'evidence'), exist_ok=True)
-    json.dump(ev, open(os.path.join(VERIF, 'evidence', pid + '.json'), 'w'), indent=1)
+    # evidence/ records runs against /repo itself; a run against another tree (FXP_REPO=<scratch worktree>: seeded changes,
+    # refactorings) is kept apart under .work/ so that it can never be committed as evidence of the registered check
+    ev_dir = os.path.join(VERIF, 'evidence') if os.path.realpath(env.REPO) == os.path.realpath('/repo') else os.path.join(VERIF, '.work', 'evidence-other-tree')
+    os.makedirs(ev_dir, exist_ok=True)
+    json.dump(ev, open(os.path.join(ev_dir, pid + '.json'), 'w'), indent=1)
     print('%s %s: %d theorems (axioms ok), %d lines / %d evaluations, %d distinct non-trivial, %d failing, %d disagreeing, %.1fs'
           % (pid, tier, len(theorems), len(judged), ev['coverage']['evaluations'], len(nontriv), len(new_fails), len(disagree), time.time() - t0))
     return rc
